@@ -68,3 +68,15 @@ reg('C17',
     'texts that differ only in stereo marks fall under C01 exclusion (i) and are counted as out of domain.',
     'bounded exhaustive enumeration (molecules x numberings x insertion orders x parameter grid) on the real code vs reference enumerators',
     'DESIGN.md s5 C17')
+
+reg('C04',
+    'The centre-environment product of the property is enumerated completely: 13 organic-subset elements x charge -2..+2 x radical x every multiset '
+    'of <=4 bonds of order 1-3 to {H,C,N,O,F,S,Cl} (1.64 M stars; thorough adds all 118 elements with <=3 bonds), built through the public API. Every '
+    'atom must carry the hydrogen count (or "no valence state") that an independent re-derivation from the raw element tables gives, check_valence() '
+    'must be exactly the atoms without a state, the hand-written textbook table must agree inside its domain, and brutto/int/float/is_radical must '
+    'equal plain sums over atoms. Whole molecules D(<=5,2) (thorough <=6) and the corpus (per-atom H vs RDKit, aromatic carbons as parsed and all atoms after kekule()) extend this.',
+    'Trusted: vf/oracle/valence.py ((a) follows the docstring semantics of _common_valences/_valences_exceptions and never calls the compiled rules; '
+    '(b) hand table, uncontroversial states only - a mutated table row outside (b) and outside the corpus is seen only through RDKit on the corpus). '
+    'Sums are checked only for molecules in which every atom has a valence state (formula undefined otherwise).',
+    'complete enumeration of the finite centre-environment space on the real implementation vs reference valence models',
+    'DESIGN.md s5 C04')
